@@ -87,7 +87,10 @@ def run_check(pid, tier, seed, args):
 
     if args.replay:
         data = json.load(open(args.replay))
-        if data.get('kind') == 'alias':
+        if data.get('kind') == 'regression':
+            import regress_lib
+            ok, msg = regress_lib.replay(data)
+        elif data.get('kind') == 'alias':
             import alias_lib
             ok, msg = alias_lib.replay(data)
         else:
@@ -155,6 +158,8 @@ def run_check(pid, tier, seed, args):
         if pid in ALIAS_PROPS:     # shared aliasing checks on caller-owned lists (harness/alias_lib.py)
             import alias_lib
             alias_lib.check(ctx, pid)
+        import regress_lib     # failing inputs of the defects repaired in /repo (harness/regress_lib.py)
+        regress_lib.check(ctx, pid)
     except InfraError:
         raise
     except Exception as exc:  # noqa: BLE001
